@@ -11,6 +11,7 @@ import (
 	"net"
 	"os"
 	"sort"
+	"strings"
 	"sync"
 	"time"
 
@@ -42,6 +43,7 @@ type Net struct {
 	// Tag is stamped on every new connection (incarnation id).
 	Tag    int
 	events []string
+	closed []string
 }
 
 // FlushEvents writes the dial/close events gathered since the last call into the event log, sorted: several tool
@@ -57,8 +59,31 @@ func (n *Net) FlushEvents() {
 	sort.Strings(ev)
 	if w := simrt.Cur(); w != nil {
 		for _, e := range ev {
+			if strings.HasPrefix(e, "close ") {
+				// WHEN a connection is closed relative to the scheduler's steps is decided inside the tool's
+				// shutdown paths by the Go runtime (which of two runnable goroutines goes first): shown in traces,
+				// summarised in the digest at the end of the run (FlushCloses)
+				w.Tracef("%s", e)
+				n.mu.Lock()
+				n.closed = append(n.closed, e)
+				n.mu.Unlock()
+				continue
+			}
 			w.Logf("%s", e)
 		}
+	}
+}
+
+// FlushCloses writes the multiset of close events of the run into the event log (sorted). Called once, at the end.
+func (n *Net) FlushCloses() {
+	n.FlushEvents()
+	n.mu.Lock()
+	cl := n.closed
+	n.closed = nil
+	n.mu.Unlock()
+	sort.Strings(cl)
+	if w := simrt.Cur(); w != nil && len(cl) > 0 {
+		w.Logf("closed during the run: %s", strings.Join(cl, "; "))
 	}
 }
 
